@@ -223,6 +223,18 @@ pub fn check_json(c: &JsonCase, ctx: &mut Ctx) -> CheckResult {
     // wall-clock limits would make the comparison timing dependent
     s1.settings.time_limit = f64::INFINITY;
     s2.settings.time_limit = f64::INFINITY;
+    // with equilibration on the two data sets differ by the rounding of one scale/unscale round trip; whether
+    // two such problems get the same verdict is a statement about the problems only if the solves are numerically
+    // robust, so these comparison solves keep the library's default safeguards on (a solve without static
+    // regularisation can start at mu ~ 1e8 and call a strictly feasible LP dual infeasible after one step).
+    // With equilibration off the data are bit-identical and the case's own settings are used (bitwise comparison).
+    if c.st.equilibrate_enable {
+        for s in [&mut s1, &mut s2] {
+            s.settings.static_regularization_enable = true;
+            s.settings.dynamic_regularization_enable = true;
+            s.settings.iterative_refinement_enable = true;
+        }
+    }
     let (o1, o2) = catch(|| {
         s1.solve();
         s2.solve();
